@@ -409,7 +409,7 @@ func cliDiffC08(quick bool) []cliDiff {
 		ref := pool[i]
 		comps := []string{pool[(i+1)%len(pool)], pool[i], pool[(i+7)%len(pool)]}
 		files := map[string]string{"ref.nw": ref + "\n", "comp.nw": strings.Join(comps, "\n") + "\n"}
-		for _, mode := range []string{"", "--tips", "--binary", "--rf", "--weighted", "--weighted --binary", "--tips --rf"} {
+		for _, mode := range []string{"", "--tips", "--binary", "--rf", "--weighted", "--weighted --binary", "--weighted --tips", "--weighted --tips --binary", "--tips --binary", "--tips --rf"} {
 			mode := mode
 			args := append([]string{"compare", "trees", "-i", "@/ref.nw", "-c", "@/comp.nw"}, strings.Fields(mode)...)
 			tips := strings.Contains(mode, "--tips")
